@@ -8,6 +8,15 @@ KINDS7 = KINDS5 + ["LIFT", "FAKE"]
 KINDS6 = KINDS5 + ["LIFT"]
 KINDS3 = ["TAP", "HOLD_HEAD", "TAIL"]
 HEADS = ("HOLD_HEAD", "ROLL_HEAD")
+
+
+def kinds_all(NoteType):
+    """every member of the repository's NoteType enum, in definition order (regenerated from the source on every run)"""
+    return [t.name for t in NoteType]
+
+
+def kindlist(kindset, NoteType):
+    return {3: KINDS3, 5: KINDS5, 6: KINDS6, 7: KINDS7}[kindset] if kindset != "all" else kinds_all(NoteType)
 INCLUDE_SETS = {
     "all": None,
     "default": ("TAP", "HOLD_HEAD", "ROLL_HEAD", "LIFT"),
@@ -15,6 +24,8 @@ INCLUDE_SETS = {
     "rolls": ("ROLL_HEAD", "TAIL"),
     "notails": ("TAP", "HOLD_HEAD", "ROLL_HEAD", "MINE", "LIFT", "FAKE"),
     "tapmine": ("TAP", "MINE"),
+    "taptail": ("TAP", "TAIL"),
+    "tailmine": ("TAIL", "MINE"),
 }
 SAME = ["KEEP_SEPARATE", "JOIN_BY_NOTE_TYPE", "JOIN_ALL"]
 POL = ["RAISE_EXCEPTION", "KEEP_ORPHAN", "DROP_ORPHAN"]
